@@ -398,3 +398,31 @@ func VP_C08_UpdatePriorities() {
 	}
 	vp.Reach("applied")
 }
+
+// C08-H1c: a batch that would push the total beyond the limit is rejected and leaves the set
+// untouched, however many validators it takes (sums that exceed 64 bits included).
+func VP_C08_UpdateManyExtreme() {
+	cur := NewValidatorSet([]*Validator{vpVal(0, 7)})
+	before := cur.Copy()
+	n := []int{2, 8, 16, 17, 18, 33}[vp.Choice("newcomers", 6)]
+	slack := vp.Int64("below-the-cap")
+	vp.Assume(vp.And(slack >= 0, slack <= 2))
+	changes := make([]*Validator, n)
+	for i := range changes {
+		changes[i] = vpVal(10+i, MaxTotalVotingPower-slack)
+	}
+	paniced := false
+	var err error
+	func() {
+		defer func() {
+			if recover() != nil {
+				paniced = true
+			}
+		}()
+		err = cur.UpdateWithChangeSet(changes)
+	}()
+	vp.Assert(!paniced, "C08.update.over-limit-batch-is-rejected-not-a-panic")
+	vp.Assert(err != nil, "C08.update.total-beyond-the-limit-is-rejected")
+	vp.Assert(vpSameSet(cur, before, true) && cur.TotalVotingPower() == before.TotalVotingPower(), "C08.update.failure-leaves-set-untouched")
+	vp.Reach("rejected")
+}
